@@ -20,10 +20,12 @@ literal, an argument of any other function, a stored slice expression) is listed
 (extract/exprs.go, `noCopyStored`), and the list is empty -/
 theorem no_view_escapes : Generated.Facts.noCopyEscapes = [] := by decide
 
-/-- package-level state: error sentinels, the read-only CRC table, and the byte pool -/
+/-- package-level state: the byte pool is the only package-level variable that is ever written (assigned, element or
+field assigned, address taken, appended / copied to, pointer-receiver method called, or handed out by reference)
+outside its own declaration; the error sentinels, the CRC table and any other lookup table are only read
+(regenerated fact, extract/tables.go `varsWritten`; the full list of variables is `Generated.Facts.packageVars`) -/
 theorem shared_state :
-    Generated.Facts.packageVars = ["ErrNoMorePackets", "ErrPCRPIDInvalid", "ErrPESHeaderTooLarge", "ErrPIDAlreadyExists", "ErrPIDNotFound",
-      "ErrPacketMustStartWithASyncByte", "bytesPool", "errSkippedPacket", "tableCRC32"] := by decide
+    Generated.Facts.packageVarsWritten = ["bytesPool"] := by decide
 
 /-- model of the pooled buffer: a buffer of at least `l` bytes with arbitrary previous content, into which exactly
 the unit's `l` payload bytes are copied and of which exactly `l` bytes are read -/
